@@ -3,7 +3,7 @@
    call of security.NASEncrypt / security.NASMacCalculate, copies of the payload (message), the key and the
    result before and after.  This specification tracks every payload cell across the events of a history
    (SecurityApi's own variables cell / plain / odd) and learns the keystream of each
-   parameter point from its first use (ks); the laws of SecurityApi are then checked on the OBSERVED history:
+   parameter point from its first use (Mem); the laws of SecurityApi are then checked on the OBSERVED history:
 
      guard          error  <=>  ~GuardOK(alg, bearer, dir, payload nil)           (both directions reported separately)
      error-touched  an error leaves the payload untouched
@@ -18,8 +18,11 @@
    Total: a disagreement prints MISMATCH, the tracked state is resynchronised on the observation. *)
 EXTENDS SecurityApi, Json
 VARIABLE l
-\* the tracked state lives in SecurityApi's own variables: cell, plain, odd as in the model; ks holds the keystream
-\* prefix learned for each point (the uninterpreted function, as observed); last the call just seen
+\* the tracked state lives in SecurityApi's own variables: cell, plain, odd as in the model; last the call just seen.
+\* The keystream prefix learned for each point (the uninterpreted function ks, as observed) is global to the run and large
+\* (thousands of points x hundreds of octets): it is kept in TLC register 3 (Mem) instead of the state variable ks, which
+\* stays empty - a state variable is fingerprinted at every step, which made validation quadratic.
+Mem == TLCGet(3)
 TraceLog == ndJsonDeserialize("trace.ndjson")
 Dom(f) == DOMAIN f
 Put(f, k, v) == (k :> v) @@ f            \* the left operand of @@ wins (TLC module, implemented in Java)
@@ -40,7 +43,7 @@ EncKind(e) ==
   ELSE IF Len(e.after) # Len(e.before) THEN "length"
   ELSE IF e.alg = 0 THEN (IF e.after # e.before THEN "null-modified" ELSE "ok")
   ELSE IF odd[c] = {q} /\ e.after # plain[c] THEN "involution"
-  ELSE IF q \in Dom(ks) /\ (LET n == Min(Len(ks[q]), Len(e.before)) IN Prefix(ks[q], n) # Prefix(Obs(e), n)) THEN "keystream-varies"
+  ELSE IF q \in Dom(Mem) /\ (LET n == Min(Len(Mem[q]), Len(e.before)) IN Prefix(Mem[q], n) # Prefix(Obs(e), n)) THEN "keystream-varies"
   ELSE "ok"
 MacKind(e) ==
   IF ~Continuity(e) THEN "continuity"
@@ -71,12 +74,12 @@ Kind(e) ==
 \* ---- tracked state, resynchronised on the observation
 Applied(e) == e.op = "Encrypt" /\ ~e.err /\ ~e.panic /\ e.alg \in 1..3 /\ ~e.nil /\ Len(e.after) = Len(e.before)
 Empty == [x \in {} |-> 0]
-TInit == /\ l = 1 /\ cell = Empty /\ plain = Empty /\ odd = Empty /\ ks = Empty /\ last = NoCall /\ TLCSet(2, 0)
+TInit == /\ l = 1 /\ cell = Empty /\ plain = Empty /\ odd = Empty /\ ks = Empty /\ last = NoCall /\ TLCSet(2, 0) /\ TLCSet(3, Empty)
 TNext ==
   /\ l <= Len(TraceLog)
   /\ (LET e == TraceLog[l]  k == Kind(e)  c == e.cell  q == PointOf(e) IN
       /\ IF k = "ok" THEN TRUE ELSE PrintT(<<"MISMATCH", l, e.op, e.alg, k, e.bearer, e.dir, Len(e.before)>>)
-      /\ CASE e.op = "TraceReset" -> cell' = Empty /\ plain' = Empty /\ odd' = Empty /\ UNCHANGED ks   \* the keystream function is global: kept across histories
+      /\ CASE e.op = "TraceReset" -> cell' = Empty /\ plain' = Empty /\ odd' = Empty /\ UNCHANGED ks   \* Mem (the keystream function) is global: kept across histories
            [] e.op = "Load" -> /\ cell' = Put(cell, c, IF e.nil THEN Nil ELSE e.after)
                                /\ plain' = Put(plain, c, IF e.nil THEN Nil ELSE e.after)
                                /\ odd' = Put(odd, c, {}) /\ UNCHANGED ks
@@ -84,8 +87,8 @@ TNext ==
                 /\ cell' = Put(cell, c, IF e.nil THEN Nil ELSE e.after)
                 /\ IF k = "ok" /\ Applied(e)
                    THEN /\ odd' = [odd EXCEPT ![c] = IF q \in @ THEN @ \ {q} ELSE @ \cup {q}]
-                        /\ ks' = IF q \in Dom(ks) /\ Len(ks[q]) >= Len(e.before) THEN ks ELSE Put(ks, q, Obs(e))
-                        /\ UNCHANGED plain
+                        /\ (IF q \in Dom(Mem) /\ Len(Mem[q]) >= Len(e.before) THEN TRUE ELSE TLCSet(3, Put(Mem, q, Obs(e))))
+                        /\ UNCHANGED <<plain, ks>>
                    ELSE IF k = "ok"
                    THEN UNCHANGED <<plain, odd, ks>>
                    ELSE /\ plain' = Put(plain, c, IF e.nil THEN Nil ELSE e.after)      \* after a mismatch: restart the cell from what was seen
